@@ -91,16 +91,16 @@ PROPS = {
         unreached=["EntryWriter::finish (timestamp millis, namespace replication, dimension arrays)", "ValueWriter::metric routing to per-dimension-set buffers", "EntryDimensions cartesian product"],
     ),
     "C16": dict(
-        verus=[("bgq", {}, ["consume", "report_validation_error"])],
+        verus=[("bgq", {}, ["consume", "report_validation_error"]), ("sinks", {})],
         kani=["emf_buf"],
         technique="Kani proof harnesses on the real advance_slices (all lengths/counts per call-site slice count) + bounded scripted-writer harness on write_all_vectored; Verus contract on Receiver::consume",
         level_text="Kani/CBMC proof that advance_slices leaves exactly the suffix of the concatenation after `count` bytes with no leading empty slice, for every slice count used at a call site (<=5), all lengths and contents; "
-                   "bounded Kani check of write_all_vectored against a scripted writer; Verus proof that the queue's consume hands every entry to the stream once whatever the stream returns.",
+                   "bounded Kani check of write_all_vectored against a scripted writer (thorough tier); Verus proof that the queue's consume, the immediate-flush sink's append (next then flush) and Tee::next / Tee::flush (both streams, eagerly) hand every entry on exactly once whatever the stream returns.",
         level_note="Trusted: CBMC/CaDiCaL, Kani's model of std; slice lengths are bounded to 4 bytes in the advance_slices harnesses (the function never reads contents; lengths only enter through checked_sub/slicing). "
                    "write_all_vectored is a BOUNDED stand-in (not counted as proved).",
         explanation="vectored write loop and sink error handling",
         assumptions=["io::Write implementations report the number of bytes they accepted truthfully"],
-        unreached=["FormattedEntryIoStream / Tee (to be added as Verus unit `sinks`)", "immediate_flush SinkState::append"],
+        unreached=["FormattedEntryIoStream::next (Format trait not modelled)", "EntryWriter::finish: one vectored write sequence per emitted line"],
     ),
     "C12": dict(
         kani=["writer_sample", "emf_num", "writer_congress"],
